@@ -25,14 +25,69 @@ def chi2_quantile(df, p=1e-9):
     return 1.2 * q + 10
 
 
+class _G:
+    pass
+
+
+def shared_circuit(rng):
+    """a normalised mixture of two products over the same variables that SHARE input layers and split the scope differently:
+    root = Sum([in_0 * ... * in_{n-1},  in_a * Sum(prod of the others)])  (smooth, decomposable, not structured-decomposable)"""
+    from cirkit.symbolic import layers as L
+    from cirkit.symbolic import parameters as P
+    from cirkit.symbolic.circuit import Circuit
+    from cirkit.utils.scope import Scope
+    n = rng.choice([2, 3, 3, 4])
+    N = rng.choice([2, 3])
+    vs = gen.VAR_SETS[rng.choice(["dense", "dense", "sparse"])](n)
+    g = _G()
+    g.doms = {v: ("disc", N) for v in vs}
+
+    def sm(shape):
+        return P.Parameter.from_unary(P.SoftmaxParameter(shape, axis=1), gen.tensor(gen.dy_array(rng, shape, -4, 4)))
+
+    ins = {v: L.CategoricalLayer(Scope([v]), 1, num_categories=N, probs=sm((1, N))) for v in vs}
+    layers = list(ins.values())
+    conn = {}
+    order = list(vs)
+    if rng.random() < 0.5:
+        rng.shuffle(order)
+    p1 = L.HadamardLayer(1, arity=n)
+    conn[p1] = [ins[v] for v in order]
+    layers.append(p1)
+    a = rng.choice(vs)
+    rest = [v for v in vs if v != a]
+    if len(rest) >= 2:
+        pin = L.HadamardLayer(1, arity=len(rest))
+        conn[pin] = [ins[v] for v in rest]
+        sin = L.SumLayer(1, 1, arity=1, weight=sm((1, 1)))
+        conn[sin] = [pin]
+        layers += [pin, sin]
+        other = sin
+    else:
+        other = ins[rest[0]]
+    p2 = L.HadamardLayer(1, arity=2)
+    conn[p2] = [ins[a], other] if rng.random() < 0.5 else [other, ins[a]]
+    root = L.SumLayer(1, 1, arity=2, weight=sm((1, 2)))
+    conn[root] = [p1, p2]
+    layers += [p2, root]
+    g.desc = {"family": "shared-inputs", "vars": list(vs), "kinds": ["cat_softmax"] * n, "sums": 2, "prods": 3, "arity": [2], "K": 1, "nout": 1}
+    return Circuit(layers, conn, [root]), g
+
+
 def one_case(rep, cs, seed, i, nsamples):
     rng = rng_for(seed, PID, i)
     torch.manual_seed(seed * 104729 + i)
     o = gen.random_opts(rng, kinds=["cat_softmax", "cat_probs"], monotone=True, normalized=True, nout=1, K=1)
     o["nvars"] = rng.choice([1, 2, 2, 3])
     o["varset"] = rng.choice(["dense", "dense", "sparse", "shift"])
-    sc, g = gen.gen_circuit(rng, **o)
+    if i % 4 == 3:
+        sc, g = shared_circuit(rng)
+        o["prod"] = "had"
+    else:
+        sc, g = gen.gen_circuit(rng, **o)
     fold, opt = rng.choice(evalc.FLAGS)
+    if i % 4 == 3 and rng.random() < 0.6:
+        fold = True
     desc = {"i": i, "seed": seed, "fold": fold, "opt": opt, "nsamples": nsamples, **g.desc}
     rep.count(f"flags:{int(fold)}{int(opt)}")
     rep.count("varset:" + o["varset"])
